@@ -74,8 +74,10 @@ def guard {α} (c : Bool) (msg : String) (k : Except String α) : Except String 
   if c then k else .error msg
 
 inductive APc
-  | start                      -- call seen, no step yet (or: a failed compare-exchange sent it back)
+  | start                      -- call seen, no step yet
   | cas (cur : UInt64)         -- float add: loaded `cur`, next is the compare-exchange to `cur + delta`
+  | retry (cur : UInt64)       -- float add: a compare-exchange failed and reported `cur`; the loop either loads again
+                               -- (as from `start`) or retries at once with the reported value (as from `cas cur`)
 deriving Repr
 
 /-- one committed operation: thread, call index, the call, the value it returns -/
@@ -122,41 +124,53 @@ def specApply (float : Bool) (v : UInt64) (op : String) : Option (UInt64 × Stri
   else if float then (floatDelta op).map fun d => (f64Add v d, "")
   else some (if isSubOp op then v - intDelta op else v + intDelta op, "")
 
-/-- one accepted event of the call `op`: the new cell value and either the next program counter
-    (`inl`) or the value the call returns (`inr`: the call is complete, it took effect in this step) -/
-def aEv (float : Bool) (mem : UInt64) (op : String) (pc : APc) (e : Ev) : Except String (UInt64 × (APc ⊕ String)) :=
-  if e.loc != "v0" then .error "unknown location" else
+/-- the first step of the call `op` (program counter `start`): the new cell value and either the next
+    program counter (`inl`) or the value the call returns (`inr`: the call is complete, it took
+    effect in this step) -/
+def aEvStart (float : Bool) (mem : UInt64) (op : String) (e : Ev) : Except String (UInt64 × (APc ⊕ String)) :=
   let n := opName op
-  match pc with
-  | .start =>
-    if n == "get" then
-      guard (e.k == "L" && ordGe e.ord "Relaxed" && e.res == mem) s!"get: expected load Relaxed -> {hexStr mem}" (.ok (mem, .inr (hexStr mem)))
-    else if n == "set" || n == "reset" then
-      let x : Int := if n == "reset" then 0 else parseIntArg (opArg op)
-      let bits := if float then f64OfInt x else u64OfInt x
-      guard (e.k == "S" && ordGe e.ord "Relaxed" && e.a == bits) s!"set: expected store Relaxed {hexStr bits}" (.ok (bits, .inr ""))
-    else if float then
-      match floatDelta op with
-      | none => .error s!"unknown op {op}"
-      | some _ =>
-        guard (e.k == "L" && ordGe e.ord "Acquire" && e.res == mem) s!"float add: expected load Acquire -> {hexStr mem}"
-          (.ok (mem, .inl (.cas mem)))
-    else
-      let want := if isSubOp op then "U" else "A"
-      let newv := if isSubOp op then mem - intDelta op else mem + intDelta op
-      guard (e.k == want && ordGe e.ord "Relaxed" && e.a == intDelta op && e.res == mem)
-        s!"int {n}: expected {want} Relaxed {hexStr (intDelta op)} -> {hexStr mem}" (.ok (newv, .inr ""))
-  | .cas cur =>
+  if n == "get" then
+    guard (e.k == "L" && ordGe e.ord "Relaxed" && e.res == mem) s!"get: expected load Relaxed -> {hexStr mem}" (.ok (mem, .inr (hexStr mem)))
+  else if n == "set" || n == "reset" then
+    let x : Int := if n == "reset" then 0 else parseIntArg (opArg op)
+    let bits := if float then f64OfInt x else u64OfInt x
+    guard (e.k == "S" && ordGe e.ord "Relaxed" && e.a == bits) s!"set: expected store Relaxed {hexStr bits}" (.ok (bits, .inr ""))
+  else if float then
     match floatDelta op with
     | none => .error s!"unknown op {op}"
-    | some d =>
-      let newv := f64Add cur d
-      guard (float && e.k == "C" && ordGe e.ord "Release" && e.a == cur && e.b == newv) s!"float add: expected cas Release {hexStr cur} -> {hexStr newv}" <|
-        if e.ok then
-          guard (mem == cur && e.res == cur) "cas succeeded although the cell no longer holds the loaded value" (.ok (newv, .inr ""))
-        else
-          -- failure: value changed, or spurious (weak); the loop reloads
-          guard (e.res == mem) "failed cas reports a wrong current value" (.ok (mem, .inl .start))
+    | some _ =>
+      guard (e.k == "L" && ordGe e.ord "Acquire" && e.res == mem) s!"float add: expected load Acquire -> {hexStr mem}"
+        (.ok (mem, .inl (.cas mem)))
+  else
+    let want := if isSubOp op then "U" else "A"
+    let newv := if isSubOp op then mem - intDelta op else mem + intDelta op
+    guard (e.k == want && ordGe e.ord "Relaxed" && e.a == intDelta op && e.res == mem)
+      s!"int {n}: expected {want} Relaxed {hexStr (intDelta op)} -> {hexStr mem}" (.ok (newv, .inr ""))
+
+/-- the compare-exchange of a float add whose expected value is `cur` (program counter `cas cur`) -/
+def aEvCas (float : Bool) (mem : UInt64) (op : String) (cur : UInt64) (e : Ev) : Except String (UInt64 × (APc ⊕ String)) :=
+  match floatDelta op with
+  | none => .error s!"unknown op {op}"
+  | some d =>
+    let newv := f64Add cur d
+    guard (float && e.k == "C" && ordGe e.ord "Release" && e.a == cur && e.b == newv) s!"float add: expected cas Release {hexStr cur} -> {hexStr newv}" <|
+      if e.ok then
+        guard (mem == cur && e.res == cur) "cas succeeded although the cell no longer holds the loaded value" (.ok (newv, .inr ""))
+      else
+        -- failure: value changed, or spurious (weak); the loop either reloads or goes on with the value
+        -- the failed compare-exchange reported (`Err(v) => cur = v`)
+        guard (e.res == mem) "failed cas reports a wrong current value" (.ok (mem, .inl (.retry mem)))
+
+/-- one accepted event of the call `op`: the new cell value and either the next program counter
+    (`inl`) or the value the call returns (`inr`: the call is complete, it took effect in this step).
+    After a failed compare-exchange that reported `cur` (`retry cur`) both ways of writing the loop are
+    accepted: a load is treated exactly as at `start`, anything else exactly as at `cas cur`. -/
+def aEv (float : Bool) (mem : UInt64) (op : String) (pc : APc) (e : Ev) : Except String (UInt64 × (APc ⊕ String)) :=
+  if e.loc != "v0" then .error "unknown location" else
+  match pc with
+  | .start => aEvStart float mem op e
+  | .cas cur => aEvCas float mem op cur e
+  | .retry cur => if e.k == "L" then aEvStart float mem op e else aEvCas float mem op cur e
 
 def aStep (s : ASt) (e : Ev) : Except String ASt :=
   match s.ths[e.tid]? with
@@ -262,6 +276,8 @@ inductive VPc
   | wheld (op : String) (res : String)           -- write lock held, effect done
   | incChild (child : Nat)                       -- `inc` through a returned handle
   | collecting (keys : List (String × Nat)) (reads : List (String × UInt64 × List Nat))   -- value reads so far: location, value, the children it can be
+  | rmRheld (op : String) (done : Option String)  -- `rm` pre-check: read lock held; `some rv` = key absent, the remove is committed with result `rv`
+  | rmNeedW (op : String)                         -- `rm` pre-check found the key, read lock released; next: write lock
 deriving Repr
 
 /-- one committed operation: the thread, (ghost) the index of the call of that thread whose step
@@ -336,6 +352,18 @@ def vStep (s : VSt) (e : Ev) : Except String VSt :=
           let (s1, r) := vEff s e.tid th.idx .keys
           let ks := match r with | .keys l => l | _ => []
           .ok (setTh { s1 with lockR := e.tid :: s1.lockR } { th with pc := some (.collecting ks []) })
+        else if n == "rm" && e.k == "R" then
+          -- `rm` may first look the key up under the READ lock (like `with`): an absent key takes effect here - the
+          -- specification's remove of an absent key returns "absent" and changes nothing -, the call is complete once the
+          -- read lock is released and no write lock is taken; a present key commits nothing yet
+          guard (e.loc == "lk") "rm: expected read lock on lk" <|
+          guard s.lockW.isNone "read lock granted while a writer holds the lock" <|
+          match s.spec.lookup (key op) with
+          | none =>
+            let (s1, r) := vEff s e.tid th.idx (.remove (key op))
+            let rv := match r with | .ok => "ok" | .err => "err" | _ => ""
+            .ok (setTh { s1 with lockR := e.tid :: s1.lockR } { th with pc := some (.rmRheld op (some rv)) })
+          | some _ => .ok (setTh { s with lockR := e.tid :: s.lockR } { th with pc := some (.rmRheld op none) })
         else if n == "rm" || n == "reset" then
           guard (e.k == "X" && e.loc == "lk") s!"{n}: expected write lock" <|
           guard (s.lockW.isNone && s.lockR.isEmpty) "write lock granted while the lock is held" <|
@@ -392,6 +420,20 @@ def vStep (s : VSt) (e : Ev) : Except String VSt :=
           | some asg =>
             let strs := sortKeys (asg.map fun cv => (((ks.find? (·.2 == cv.1)).map (·.1)).getD "?") ++ "=" ++ toString cv.2.toNat)
             .ok (setTh { s with lockR := s.lockR.erase e.tid } { th with pc := none, retv := some ("+".intercalate strs) })
+      | .rmRheld op done =>
+        guard (e.k == "r" && e.loc == "lk") "rm: expected read unlock" <|
+        let s1 := { s with lockR := s.lockR.erase e.tid }
+        match done with
+        | some rv => .ok (setTh s1 { th with pc := none, retv := some rv })
+        | none => .ok (setTh s1 { th with pc := some (.rmNeedW op) })
+      | .rmNeedW op =>
+        -- remove under the write lock: the key is looked up AGAIN (`remove(..).is_some()` decides the outcome; a
+        -- concurrent remove / reset in the gap makes it report absent)
+        guard (e.k == "X" && e.loc == "lk") "rm: expected write lock after the pre-check found the key" <|
+        guard (s.lockW.isNone && s.lockR.isEmpty) "write lock granted while the lock is held" <|
+        let (s1, r) := vEff s e.tid th.idx (.remove (key op))
+        let rv := match r with | .ok => "ok" | .err => "err" | _ => ""
+        .ok (setTh { s1 with lockW := some e.tid } { th with pc := some (.wheld op rv) })
 
 def vItem (s : VSt) : Item → Except String VSt
   | .ev e => vStep s e
